@@ -8,7 +8,7 @@ with tempfile.TemporaryDirectory() as d:
     x = os.path.join(d, "j.xml")
     env = dict(os.environ); env.pop("GRAPHIQ_VERIF", None)
     subprocess.run(["/venv/bin/python", "-m", "pytest", "-q", "-p", "no:cacheprovider", "--timeout=900",
-                    "--continue-on-collection-errors", "-n", "16", f"--junitxml={x}"], cwd=repo, env=env,
+                    "--continue-on-collection-errors", "-n", os.environ.get("VERIF_BASE_N", "16"), f"--junitxml={x}"], cwd=repo, env=env,
                    stdout=subprocess.DEVNULL, stderr=subprocess.DEVNULL)
     passed = set()
     for tc in ET.parse(x).getroot().iter("testcase"):
